@@ -50,6 +50,8 @@ class Analysis:
         self.summ = {}              # name -> (set mutated param idx, set returned-alias param idx, uses_global_rng)
         self.stack = []
         self.recursive = set()
+        self.site_kinds = {}        # (callee, param index) -> [is the argument surely a numeric array?] over all call sites seen
+        self.param_kinds = {}       # (private callee, param index) -> 'num', from a first pass over every function
         self.prov = {}              # provisional summaries of recursive functions
 
     # ---- per function ----------------------------------------------------------------------
@@ -85,6 +87,9 @@ class FnState:
         self.elts = {}              # container var -> var standing for "any element of it"
         for i, p in enumerate(fn.params):
             v = self.new(); self.atoms.append(("param", v, i)); self.env[p] = {v}
+            # a private helper whose every call site inside koala passes a numeric array for this parameter: the parameter is a numeric array
+            if an.param_kinds.get((fn.qual, i)) == "num":
+                self.kind[v] = "num"
 
     def new(self):
         self.nvars += 1; return self.nvars - 1
@@ -286,9 +291,13 @@ class FnState:
         fn = self.an.fns[name]
         # map positional + keyword args to param indices
         byidx = {}
-        for i, a in enumerate(e.args): byidx[i] = argvals[i]
+        for i, a in enumerate(e.args):
+            byidx[i] = argvals[i]
+            self.an.site_kinds.setdefault((name, i), []).append(self.is_numeric_base(a) or self.index_kind(a) == "array")
         for j, k in enumerate(e.keywords):
-            if k.arg in fn.params: byidx[fn.params.index(k.arg)] = argvals[len(e.args) + j]
+            if k.arg in fn.params:
+                byidx[fn.params.index(k.arg)] = argvals[len(e.args) + j]
+                self.an.site_kinds.setdefault((name, fn.params.index(k.arg)), []).append(self.is_numeric_base(k.value) or self.index_kind(k.value) == "array")
         for i in mut:
             for v in byidx.get(i, ()): self.atoms.append(("mutate", v, e.lineno, f"call {name} mutates its arg {i}"))
         out = set()
@@ -473,7 +482,15 @@ SELF_MUTATORS = {"Lattice.__init__", "Lattice.__setstate__"}      # constructors
 def analyse_all():
     """returns rows: dict(mod, name, lean, public, params, atoms, pt (var->mask), allowed, mut_sites, global_rng)"""
     fns = collect()
+    # pass 1: collect, for every call of a koala function inside koala, whether each argument is surely a numeric array
+    an0 = Analysis(fns)
+    for name in fns:
+        an0.summarise(name)
     an = Analysis(fns)
+    for (callee, i), flags in an0.site_kinds.items():
+        short = callee.split(".")[-1]
+        if short.startswith("_") and not short.startswith("__") and flags and all(flags):
+            an.param_kinds[(callee, i)] = "num"
     rows = []
     for name, fn in sorted(fns.items(), key=lambda kv: (kv[1].mod, kv[1].node.lineno)):
         mut, ret, grng, st = an.summarise(name)
